@@ -180,7 +180,7 @@ def node_attr(ex, o, attr, line):
     if attr == 'setFormula':
         def set_formula(ex_, text):
             try:
-                o.math = sf.parse(text_of(ex_, text), 'sbml')
+                o.math = sf.parse(text_of(ex_, text), 'sbml-l1')      # setFormula uses the legacy Level-1 infix grammar
             except sf.ParseError:
                 return Builtin('libsbml.LIBSBML_INVALID_OBJECT')
             return SUCCESS
